@@ -16,6 +16,12 @@ SPEC = os.path.join(ROOT, "spec")
 WORK = os.path.join(ROOT, ".work")
 HARNESS = os.path.join(ROOT, "harness")
 BIN = os.path.join(HARNESS, "target", "debug", "conform")
+
+
+def limit_memory():
+    """A sampler that never stops doubling a trajectory would otherwise take the whole machine down."""
+    import resource
+    resource.setrlimit(resource.RLIMIT_AS, (24 << 30, 24 << 30))
 LEVEL = "model_checking"
 
 
@@ -221,7 +227,8 @@ class Ctx:
             e.update({k: str(v) for k, v in env.items()})
         try:
             r = subprocess.run([BIN] + [str(a) for a in args], stdout=subprocess.PIPE,
-                               stderr=subprocess.PIPE, text=True, timeout=timeout, input=stdin, env=e)
+                               stderr=subprocess.PIPE, text=True, timeout=timeout, input=stdin, env=e,
+                               preexec_fn=limit_memory)
         except subprocess.TimeoutExpired:
             raise ToolError("harness %s timed out after %ds" % (args, timeout))
         if r.returncode not in (0,):
